@@ -578,4 +578,184 @@ def rule_h(ctx: Ctx) -> None:
     ctx.explain('C12.h: documents.get_context never mutates **kwargs between its two option filters; the schema-side filter covers the access options.')
 
 
-RULES = [rule_a, rule_b, rule_c, rule_d, rule_e, rule_f, rule_g, rule_h]
+QUOTERS = ('quote', 'quote_plus', 'quote_from_bytes', 'query_quote')
+
+
+def _const_strings(f, e: ast.AST, depth: int = 0):
+    """the constant strings an expression can evaluate to (constants, conditional expressions, single-assignment locals); None when unknown."""
+    if isinstance(e, ast.Constant) and isinstance(e.value, str):
+        return [e.value]
+    if isinstance(e, ast.IfExp):
+        a, b = _const_strings(f, e.body, depth), _const_strings(f, e.orelse, depth)
+        return None if a is None or b is None else a + b
+    if isinstance(e, ast.Name) and depth < 3:
+        defs = [x.value for x in ast.walk(f.node) if isinstance(x, ast.Assign) and len(x.targets) == 1 and text(x.targets[0]) == e.id]
+        out = []
+        for d in defs:
+            r = _const_strings(f, d, depth + 1)
+            if r is None:
+                return None
+            out += r
+        return out or None
+    return None
+
+
+def rule_i(ctx: Ctx) -> None:
+    """The location that is checked is the location that is opened: the sandbox/allow test compares the *text* of the normalised URL,
+    the opener percent-decodes it once more.  A quoting step that declares '%' safe lets an already encoded sequence through, so
+    `%252e%252e` survives normalisation as `%2e%2e` and reaches the file system as `..`."""
+    rule = 'C12.i'
+    n = 0
+    for mod in ('utils.paths', 'utils.urls'):
+        for f in ctx.idx.iter_functions(mod):
+            if isinstance(f.node, ast.Lambda):
+                continue
+            for c in calls(f.node):
+                d = text(c.func).split('.')[-1]
+                if d not in QUOTERS:
+                    continue
+                n += 1
+                safe = next((k.value for k in c.keywords if k.arg == 'safe'), c.args[1] if len(c.args) > 1 else None)
+                vals = [] if safe is None else _const_strings(f, safe)
+                ok = vals is not None and all('%' not in v for v in vals)
+                ctx.ob(rule, f'{f.qualname.split(".", 2)[-1]}: `{text(c)[:60]}` escapes the percent sign', f.loc(c), ok,
+                       '' if ok else (f'safe={vals!r} keeps "%": a double-encoded `..` (%252e%252e) in an include/redefine location is normalised to the literal segment %2e%2e, '
+                                      'passes the textual sandbox test and is decoded to `..` by the opener - a file outside the sandbox is loaded' if vals is not None
+                                      else f'the safe set `{text(safe)}` is not a constant'), key=f'{f.qualname}|quote|{d}|{text(c.args[0])[:30] if c.args else ""}')
+    ctx.floor(rule, 'percent-encoding calls in the URL/path utilities', n, 8)
+    # LocationPath: decoded once on the way in, encoded once on the way out
+    c = ctx.idx.cls('xmlschema.utils.paths.LocationPath')
+    f = c.methods['from_uri']
+    rets = [r for r in ast.walk(f.node) if isinstance(r, ast.Return) and r.value is not None]
+    bad = []
+    for r in rets:
+        un = [x for x in ast.walk(r.value) if isinstance(x, ast.Call) and text(x.func) in ('unquote', 'unquote_plus')]
+        direct = len(un) == 1 and not any(isinstance(y, ast.Call) and text(y.func) in ('unquote', 'unquote_plus') for a in un[0].args for y in ast.walk(a))
+        via = isinstance(r.value, ast.Name)      # a path object built (and decoded) just before, checked where it is built
+        if not (direct or via):
+            bad.append(r)
+    locs = [x for x in ast.walk(f.node) if isinstance(x, ast.Assign) and isinstance(x.value, ast.Call) and 'Path' in text(x.value.func)]
+    for x in locs:
+        un = [y for y in ast.walk(x.value) if isinstance(y, ast.Call) and text(y.func) in ('unquote', 'unquote_plus')]
+        if len(un) != 1:
+            bad.append(x)
+    ctx.ob(rule, 'LocationPath.from_uri: every path it builds is percent-decoded exactly once', f.loc(bad[0]) if bad else f.loc(), bool(rets) and not bad,
+           '' if not bad else f'`{text(bad[0])[:70]}`', key='LocationPath.from_uri|unquote-once')
+    f = c.methods['as_uri']
+    rets = [r for r in ast.walk(f.node) if isinstance(r, ast.Return) and r.value is not None]
+    ok = bool(rets) and all(any(isinstance(x, ast.Call) and text(x.func).split('.')[-1] in QUOTERS for x in ast.walk(r.value)) for r in rets)
+    ctx.ob(rule, 'LocationPath.as_uri: every URI it returns is percent-encoded', f.loc(), ok, '', key='LocationPath.as_uri|quote')
+    ctx.explain('C12.i: no percent-encoding call of xmlschema/utils/paths.py and urls.py has "%" in its safe set (constants followed through conditional expressions and '
+                'single-assignment locals); LocationPath decodes once in from_uri and encodes in as_uri.')
+
+
+LOADS = {'load_schema': 2, 'include_schema': None, 'import_schema': None}   # position of base_url resolved from the callee's own signature
+SANDBOX_EXEMPT = {
+    'xmlschema.validators.schemas.XMLSchemaBase.create_meta_schema': 'meta-schema: absolute locations inside the package, built with its own settings',
+}
+
+
+def rule_j(ctx: Ctx) -> None:
+    """One sandbox per schema set.  XMLResource(allow='sandbox') without a base URL takes the directory of the file it is about to open
+    as the sandbox base, so a sub-resource loaded without a base URL - or with the base URL of the XML instance - is its own sandbox.
+    Every call that loads a further schema into existing maps passes a base URL from the schema side."""
+    rule = 'C12.j'
+    idx = ctx.idx
+    # premise: the fallback exists (otherwise a missing base URL would be harmless)
+    init = idx.func(f'{RES}.__init__')
+    src = text(init.node)
+    premise = "allow == 'sandbox' and base_url is None" in src and 'os.path.dirname(normalize_url(source))' in src
+    ctx.ob(rule, 'XMLResource.__init__: sandbox without base_url falls back to the directory of the source (premise of this rule)', init.loc(), premise, '',
+           key='XMLResource.__init__|sandbox-fallback', nontrivial=False)
+    n = 0
+    for f in idx.iter_functions():
+        if isinstance(f.node, ast.Lambda) or f.module.name.startswith(('xmlschema.testing', 'xmlschema.extras')):
+            continue
+        for c in calls(f.node):
+            if not (isinstance(c.func, ast.Attribute) and c.func.attr in LOADS):
+                continue
+            recv = text(c.func.value)
+            # resolve the callee to read the position of base_url from its signature
+            cands = [m for cls_ in idx.classes.values() for nm_, m in cls_.methods.items() if nm_ == c.func.attr]
+            if 'loader' in recv or (f.cls is not None and 'Loader' in f.cls.name and recv == 'self'):
+                cands = [m for m in cands if 'Loader' in m.cls.name] or cands
+            else:
+                cands = [m for m in cands if 'Loader' not in m.cls.name] or cands
+            if not cands:
+                continue
+            params = [p for p in cands[0].params if p != 'self']
+            if 'base_url' not in params:
+                continue
+            n += 1
+            pos = params.index('base_url')
+            arg = next((k.value for k in c.keywords if k.arg == 'base_url'), c.args[pos] if len(c.args) > pos else None)
+            q = f.qualname
+            short = q.split('.', 2)[-1]
+            if q in SANDBOX_EXEMPT:
+                ctx.ob(rule, f'{short}: `{text(c)[:50]}` is a reviewed exemption', f.loc(c), True, SANDBOX_EXEMPT[q], key=f'{q}|load|exempt|{c.func.attr}', nontrivial=False)
+                continue
+            if arg is None:
+                ok, det = False, 'no base URL: with allow=\'sandbox\' the fetched file becomes its own sandbox base, e.g. a `locations` entry outside the sandbox, blocked at ' \
+                                 'build time, is loaded when a lax wildcard meets its namespace during validation'
+            else:
+                t = text(arg)
+                instance_side = 'context.source' in t or t.split('.')[0] in ('resource', 'xml_resource', 'source', 'obj', 'elem')
+                passthrough = t == 'base_url' and 'base_url' in f.params
+                schema_side = t.endswith('base_url') and not instance_side
+                ok = (passthrough or schema_side) and not instance_side
+                det = '' if ok else (f'`{t}` is the base URL of the XML instance: a location hint in an instance outside the sandbox loads a schema next to that instance'
+                                     if instance_side else f'`{t}` is not a schema-side base URL')
+            ctx.ob(rule, f'{short}: `{recv}.{c.func.attr}(…)` fetches inside the sandbox of the schema set', f.loc(c), ok, det, key=f'{q}|load|{c.func.attr}|{recv}')
+    ctx.floor(rule, 'calls loading a further schema into existing maps', n, 10)
+    # a blocked on-demand location is skipped, like a blocked import
+    ln = idx.func('xmlschema.loaders.SchemaLoader.load_namespace')
+    hs = [h for t in ast.walk(ln.node) if isinstance(t, ast.Try) for h in t.handlers]
+    ok = bool(hs) and all({'XMLResourceBlocked', 'OSError'} <= {text(e).split('.')[-1] for e in (h.type.elts if isinstance(h.type, ast.Tuple) else [h.type])} for h in hs if h.type is not None)
+    ctx.ob(rule, 'SchemaLoader.load_namespace records a blocked location as missing', ln.loc(), ok, '', key='load_namespace|blocked-is-missing')
+    ctx.explain('C12.j: who-passes-what at every load_schema / include_schema / import_schema call (base_url position read from the callee signature): a function parameter passed '
+                'through, or an expression ending in .base_url rooted in a schema / the maps - never absent, never rooted in the validation context or an XML resource.')
+
+
+def rule_k(ctx: Ctx) -> None:
+    """Location hints extend the maps of the validating schema only: `self.maps.namespaces` also lists the schemas of the meta-schema
+    (shared by every schema of the process, built with their own settings: allow='all'); such a schema must never be the receiver of
+    include_schema()."""
+    rule = 'C12.k'
+    from .common import iteration_requires
+    n = 0
+    for cq in ('xmlschema.validators.elements.XsdElement', 'xmlschema.validators.elements.Xsd11Element'):
+        c = ctx.idx.cls(cq)
+        f = c.methods.get('check_dynamic_context')
+        if f is None:
+            raise AnalysisError(f'missing anchor {cq}.check_dynamic_context')
+        ctx.analysed(f.qualname)
+        g = cfg_of(ctx, f)
+        loops = [x for x in g.nodes if x.kind == 'for' and 'iter_schema_location_hints' in text(x.ast.iter)]
+        if len(loops) != 1:
+            raise AnalysisError(f'{rule}: expected one loop over the location hints in {f.qualname}')
+        lp = loops[0]
+        own = set()
+        for x in g.nodes:
+            if x.kind != 'if':
+                continue
+            e, neg = x.ast.test, False
+            while isinstance(e, ast.UnaryOp) and isinstance(e.op, ast.Not):
+                e, neg = e.operand, not neg
+            t = text(e)
+            if 'maps is not self.maps' in t and t.startswith('any('):
+                own.add((x, 'T' if neg else 'F'))
+            elif 'maps is self.maps' in t and t.startswith('all('):
+                own.add((x, 'F' if neg else 'T'))
+        for nd, cl in call_nodes(g, lambda cl: isinstance(cl.func, ast.Attribute) and cl.func.attr in ('include_schema', 'import_schema')):
+            n += 1
+            ok = bool(own) and iteration_requires(g, lp, nd, own)
+            ctx.ob(rule, f'{c.name}.check_dynamic_context: `{text(cl)[:60]}` is reached only for a namespace whose schemas all belong to self.maps', f.loc(cl), ok,
+                   '' if ok else 'the receiver may be a schema of the meta-schema: a hint `http://www.w3.org/XML/1998/namespace /any/file.xsd` is fetched with the meta-schema\'s '
+                   'settings (allow=\'all\' even if the user\'s schema says \'none\') and registered in the maps shared by every schema of the process',
+                   key=f'{c.name}.check_dynamic_context|own-maps|{cl.func.attr}')
+    ctx.floor(rule, 'loads triggered by location hints', n, 4)
+    ctx.explain('C12.k: within one iteration over the hints, include_schema/import_schema lie behind the edge on which every schema registered for the namespace has '
+                '`maps is self.maps` (edge-cut reachability).')
+
+
+RULES = [rule_a, rule_b, rule_c, rule_d, rule_e, rule_f, rule_g, rule_h, rule_i, rule_j, rule_k]
